@@ -247,6 +247,8 @@ class RefPeer(asyncio.Protocol):
         self.keys_hk = None
         self._hold = False
         self.bug = None
+        self.host_cert_blob = None      # present a certificate as K_S
+        self.host_cert_alg = None
 
     # -- asyncio.Protocol -------------------------------------------------------------
 
@@ -425,7 +427,9 @@ class RefPeer(asyncio.Protocol):
                            if self.role == 'client'
                            else b'kex-strict-s-v00@openssh.com')
 
-        if self.role == 'server':
+        if self.role == 'server' and self.host_cert_blob is not None:
+            hk = [self.host_cert_alg]
+        elif self.role == 'server':
             hk = []
 
             for k in self.host_keys:
@@ -523,6 +527,10 @@ class RefPeer(asyncio.Protocol):
     def _pick_host_key(self, neg):
         want = neg['hostkey']
 
+        if self.host_cert_blob is not None:
+            k = self.host_keys[0]
+            return k, sig_algs_for(k)[0]
+
         for k in self.host_keys:
             if want in sig_algs_for(k):
                 return k, want
@@ -605,7 +613,8 @@ class RefPeer(asyncio.Protocol):
 
     async def _kex_server(self, kex, prefix, neg):
         hk, hk_alg = self._pick_host_key(neg)
-        k_s = public_blob(hk)
+        k_s = self.host_cert_blob if self.host_cert_blob is not None \
+            else public_blob(hk)
         self.host_key_blob = k_s
 
         if kex in X25519 or kex in ECDH:
